@@ -17,6 +17,9 @@ package control
 import (
 	"encoding/json"
 	"fmt"
+	"go/ast"
+	"go/parser"
+	"go/token"
 	"net/netip"
 	"os"
 	"path/filepath"
@@ -144,22 +147,88 @@ type c04Env struct {
 	expOk  map[string]bool
 	atomM  map[string]any
 	stats  *VStats
+	stages map[string][]string
 }
 
-func (e *c04Env) optimizers(kind string) []routing.RulesOptimizer {
-	dat := &routing.DatReaderOptimizer{Logger: e.log, LocationFinder: e.lf}
-	if kind == "traffic" {
-		return []routing.RulesOptimizer{&routing.AliasOptimizer{}, dat, &routing.MergeAndSortRulesOptimizer{}, &routing.DeduplicateParamsOptimizer{}}
+// the optimizer list of a call site, read from the source of the repo under test.
+func c04Stages(file, callee string) []string {
+	repo := os.Getenv("VERIF_REPO")
+	if repo == "" {
+		repo = "/repo"
 	}
-	return []routing.RulesOptimizer{dat, &routing.MergeAndSortRulesOptimizer{}, &routing.DeduplicateParamsOptimizer{}}
+	fset := token.NewFileSet()
+	f, err := parser.ParseFile(fset, filepath.Join(repo, file), nil, 0)
+	if err != nil {
+		return []string{"parse-error"}
+	}
+	var out []string
+	found := false
+	ast.Inspect(f, func(n ast.Node) bool {
+		call, ok := n.(*ast.CallExpr)
+		if !ok || found {
+			return true
+		}
+		name := ""
+		switch fn := call.Fun.(type) {
+		case *ast.SelectorExpr:
+			name = fn.Sel.Name
+		case *ast.Ident:
+			name = fn.Name
+		}
+		if name != callee {
+			return true
+		}
+		for _, a := range call.Args {
+			u, ok := a.(*ast.UnaryExpr)
+			if !ok {
+				continue
+			}
+			cl, ok := u.X.(*ast.CompositeLit)
+			if !ok {
+				continue
+			}
+			switch t := cl.Type.(type) {
+			case *ast.SelectorExpr:
+				out = append(out, t.Sel.Name)
+			case *ast.Ident:
+				out = append(out, t.Name)
+			}
+		}
+		if len(out) > 0 {
+			found = true
+		}
+		return true
+	})
+	return out
+}
+
+func (e *c04Env) mkOptimizers(names []string) []routing.RulesOptimizer {
+	var out []routing.RulesOptimizer
+	for _, n := range names {
+		switch n {
+		case "AliasOptimizer":
+			out = append(out, &routing.AliasOptimizer{})
+		case "DatReaderOptimizer":
+			out = append(out, &routing.DatReaderOptimizer{Logger: e.log, LocationFinder: e.lf})
+		case "MergeAndSortRulesOptimizer":
+			out = append(out, &routing.MergeAndSortRulesOptimizer{})
+		case "DeduplicateParamsOptimizer":
+			out = append(out, &routing.DeduplicateParamsOptimizer{})
+		}
+	}
+	return out
+}
+
+// the pipeline of the backend, in the order the production call site lists it.
+func (e *c04Env) optimizers(kind string) []routing.RulesOptimizer {
+	return e.mkOptimizers(e.stages[kind])
 }
 
 func (e *c04Env) expandOnly(kind string) []routing.RulesOptimizer {
-	dat := &routing.DatReaderOptimizer{Logger: e.log, LocationFinder: e.lf}
 	if kind == "traffic" {
-		return []routing.RulesOptimizer{&routing.AliasOptimizer{}, dat}
+		return e.mkOptimizers([]string{"AliasOptimizer", "DatReaderOptimizer"})
 	}
-	return []routing.RulesOptimizer{dat}
+	return e.mkOptimizers([]string{"DatReaderOptimizer"})
 }
 
 // what an outbound decides, through the real ParseOutbound and the backend's name table.
@@ -357,6 +426,91 @@ func (e *c04Env) truth(kind string, a c04Atom, p *c04Packet) (bool, bool) {
 
 // ---------------------------------------------------------------- geodata
 
+// What the generated .dat files contain, kept in memory: the expansion tables handed to the model
+// are computed from THIS (the documented meaning of geosite:/geoip:/ext: references), not from the
+// optimizer under test.
+type c04SiteEntry struct {
+	typ   geodata.Domain_Type
+	val   string
+	attrs []string
+}
+
+var (
+	c04SiteTruth = map[string]map[string][]c04SiteEntry{} // file -> CODE -> entries
+	c04IpTruth   = map[string]map[string][]string{}       // file -> CODE -> prefixes
+)
+
+func c04Remember(file string, msg proto.Message) {
+	switch l := msg.(type) {
+	case *geodata.GeoSiteList:
+		c04SiteTruth[file] = map[string][]c04SiteEntry{}
+		for _, e := range l.Entry {
+			es := []c04SiteEntry{}
+			for _, d := range e.Domain {
+				var attrs []string
+				for _, a := range d.Attribute {
+					attrs = append(attrs, a.Key)
+				}
+				es = append(es, c04SiteEntry{d.Type, d.Value, attrs})
+			}
+			c04SiteTruth[file][strings.ToUpper(e.CountryCode)] = es
+		}
+	case *geodata.GeoIPList:
+		c04IpTruth[file] = map[string][]string{}
+		for _, e := range l.Entry {
+			ps := []string{}
+			for _, c := range e.Cidr {
+				a, _ := netip.AddrFromSlice(c.Ip)
+				ps = append(ps, netip.PrefixFrom(a, int(c.Prefix)).String())
+			}
+			c04IpTruth[file][strings.ToUpper(e.CountryCode)] = ps
+		}
+	}
+}
+
+// the documented expansion of a reference: all entries of the (case-insensitive) code, for
+// `code@attr` only those carrying the attribute; full/domain/plain/regex entries become
+// full/suffix/keyword/regex values; CIDRs become plain values.
+func c04ExpectedExpansion(kind, file, code string) ([]*c04Param, bool) {
+	file = strings.TrimSuffix(file, ".dat")
+	switch kind {
+	case "site":
+		code, attr, _ := strings.Cut(code, "@")
+		es, ok := c04SiteTruth[file][strings.ToUpper(code)]
+		if !ok {
+			return nil, false
+		}
+		out := []*c04Param{}
+		for _, e := range es {
+			if attr != "" {
+				hit := false
+				for _, a := range e.attrs {
+					if strings.EqualFold(a, attr) {
+						hit = true
+					}
+				}
+				if !hit {
+					continue
+				}
+			}
+			key := map[geodata.Domain_Type]string{geodata.Domain_Full: "full", geodata.Domain_RootDomain: "suffix", geodata.Domain_Plain: "keyword", geodata.Domain_Regex: "regex"}[e.typ]
+			out = append(out, &c04Param{Key: key, Val: e.val})
+		}
+		return out, true
+	case "ip":
+		ps, ok := c04IpTruth[file][strings.ToUpper(code)]
+		if !ok {
+			return nil, false
+		}
+		out := []*c04Param{}
+		for _, p := range ps {
+			out = append(out, &c04Param{Val: p})
+		}
+		return out, true
+	}
+	return nil, false
+}
+
 func c04WriteGeo(dir string) error {
 	dom := func(t geodata.Domain_Type, v string, attrs ...string) *geodata.Domain {
 		d := &geodata.Domain{Type: t, Value: v}
@@ -392,6 +546,7 @@ func c04WriteGeo(dir string) error {
 		{CountryCode: "P1", Cidr: []*geodata.CIDR{cidr("1.1.1.1/32"), cidr("::1/128")}},
 	}}
 	for name, msg := range map[string]proto.Message{"geosite.dat": site, "extra.dat": extra, "geoip.dat": ip, "extraip.dat": extraip} {
+		c04Remember(strings.TrimSuffix(name, ".dat"), msg)
 		b, err := proto.Marshal(msg)
 		if err != nil {
 			return err
@@ -403,8 +558,8 @@ func c04WriteGeo(dir string) error {
 	return nil
 }
 
-// which geodata table entry a parameter refers to (mirror of the dispatch only; the CONTENT comes
-// from the real DatReaderOptimizer, probed with a one-parameter rule).
+// which geodata table entry a parameter refers to: geosite:/geoip: name the standard files, ext: names
+// "file:code" and is a site list for domain/qname and an ip list for ip.
 func c04GeoRef(fname string, p *c04Param) (kind, file, code string, isRef bool) {
 	switch p.Key {
 	case "geosite":
@@ -425,6 +580,18 @@ func c04GeoRef(fname string, p *c04Param) (kind, file, code string, isRef bool) 
 		return "bad", f, c, true
 	}
 	return "", "", "", false
+}
+
+func c04SameParams(a, b []*c04Param) bool {
+	if len(a) != len(b) {
+		return false
+	}
+	for i := range a {
+		if a[i].Key != b[i].Key || a[i].Val != b[i].Val {
+			return false
+		}
+	}
+	return true
 }
 
 func (e *c04Env) probeExpand(fname string, p *c04Param) ([]*c04Param, bool) {
@@ -531,6 +698,9 @@ func c04GenParam(r *VRand, kind, name string) *c04Param {
 		case k < 68:
 			return &c04Param{Key: "regex", Val: c04Pick(r, c04Regex)}
 		case k < 92:
+			if r.Chance(0.03) {
+				return &c04Param{Key: "geosite", Val: "nosuchcode"} // load error: the whole pipeline fails
+			}
 			return &c04Param{Key: "geosite", Val: c04Pick(r, c04Sites)}
 		default:
 			return &c04Param{Key: "ext", Val: c04Pick(r, c04ExtSite)}
@@ -604,6 +774,10 @@ func c04GenOutbound(r *VRand, kind string) c04Func {
 		if r.Chance(0.06) {
 			return c04Func{Name: "must_rules"}
 		}
+		if r.Chance(0.04) { // more than five parameters (Function.String prints only five)
+			o.Params = []*c04Param{{Val: "must"}, {Val: "must"}, {Val: "must"}, {Val: "must"}, {Val: "must"}, {Key: "mark", Val: c04Pick(r, []string{"1", "2"})}}
+			return o
+		}
 		switch r.Intn(10) {
 		case 0:
 			o.Params = []*c04Param{{Val: "must"}}
@@ -628,6 +802,11 @@ func c04Vary(r *VRand, kind string, o c04Func) c04Func {
 		return c04GenOutbound(r, kind)
 	}
 	n := c04Func{Name: o.Name}
+	if len(o.Params) == 6 { // differ in the sixth parameter only
+		n = c04CloneOut(o)
+		n.Params[5].Val = c04Pick(r, []string{"3", "4"})
+		return n
+	}
 	switch r.Intn(4) {
 	case 0: // differ only in the mark
 		n.Params = []*c04Param{{Key: "mark", Val: c04Pick(r, []string{"3", "4"})}}
@@ -821,7 +1000,12 @@ func (e *c04Env) runProgram(o *c04Out, r *VRand, kind, tag string, rules []*c04R
 					continue
 				}
 				seenGeo[id] = true
-				ps, ok := e.probeExpand(fname, p)
+				ps, ok := c04ExpectedExpansion(gk, file, code)
+				if rp, rok := e.probeExpand(fname, p); rok == ok && (!ok || c04SameParams(rp, ps)) {
+					st.Inc("geodata.real_expansion_equals_documented")
+				} else {
+					st.Inc("geodata.real_expansion_DIFFERS_from_documented")
+				}
 				if !ok {
 					geoToks = append(geoToks, id+" !")
 					st.Inc("gen.geodata_load_error")
@@ -1052,6 +1236,17 @@ func TestVerifC04(t *testing.T) {
 		expOk:    map[string]bool{},
 		atomM:    map[string]any{},
 		stats:    stats,
+	}
+
+	// the optimizer lists of the production call sites (the harness runs the stages in THAT order)
+	env.stages = map[string][]string{
+		"traffic": c04Stages("control/control_plane.go", "NewNormalizedProgram"),
+		"dnsreq":  c04Stages("component/dns/dns.go", "NewNormalizedRequestRoutingProgram"),
+		"dnsresp": c04Stages("component/dns/dns.go", "NewNormalizedProgram"),
+	}
+	for _, k := range []string{"traffic", "dnsreq", "dnsresp"} {
+		out.emit("pipeline "+k+" "+c04Tok(strings.Join(env.stages[k], ",")), "pipeline="+strings.Join(env.stages[k], ","),
+			c04Descr{Kind: "pipeline", Backend: k, Text: env.stages[k]})
 	}
 
 	// the parser guarantees the model's input assumption: no function without parameters, no rule
